@@ -1,5 +1,6 @@
 (* C09 — chaining is associative and never mutates or couples its operands. *)
 From Connectome Require Import Values NameSet NameLevel NameFacts.
+From Connectome Require BagGen.
 From Connectome Require Bag.
 Local Open Scope list_scope.
 
@@ -43,3 +44,14 @@ Example C09_example :
   = connect_tree (item_bag empty_bag a) (TChain [TChain [TItem b; TItem c]; TItem a]).
 Proof. apply bracketing_irrelevant. reflexivity. Qed.
 Print Assumptions C09_example.
+
+(* The name-level model (Model/NameLevel.v) mirrors connect_bags, normalize_bag and EdgesBag.freeze of containers/base.py and is compared with real layer stacks.
+   The fingerprints (sha256 of the normalised body) are regenerated on every run; an edit of one of these functions re-opens this property
+   even if no sampled case shows a difference. *)
+Theorem C09_mirrored_functions_are_the_pinned_ones :
+  BagGen.shape_connect_bags = "330bc8a991173b73" /\
+  BagGen.shape_normalize_bag = "7cd93bd3cd2ed163" /\
+  BagGen.shape_EdgesBag_freeze = "6e09dc87af0979b4" /\
+  BagGen.shape_EdgesBag_init = "19042133648c6d76".
+Proof. repeat split; reflexivity. Qed.
+Print Assumptions C09_mirrored_functions_are_the_pinned_ones.
